@@ -59,6 +59,11 @@ class Hang(Exception):
     """the poll would block forever (no deadline, nothing in flight)"""
 
 
+class Spin(Exception):
+    """the code under test keeps polling without the clock moving or anything being consumed (in real time: a busy
+    loop); reported as an observation instead of hanging the check"""
+
+
 class Clock:
     """stands in for the `time` module inside rpyc.lib (what Timeout reads)"""
     def __init__(self, now=0):
@@ -78,6 +83,7 @@ class ScriptChannel:
         self.sim = sim
         self.queue = []
         self._closed = False
+        self.idle_polls = 0
 
     @property
     def closed(self):
@@ -104,9 +110,16 @@ class ScriptChannel:
             raise Hang()
         if t.tmax > clock.now:
             clock.now = t.tmax
+            self.idle_polls = 0
+        else:
+            self.idle_polls += 1
+            if self.idle_polls > 200:
+                self.idle_polls = 0
+                raise Spin()
         return False
 
     def recv(self):
+        self.idle_polls = 0
         _at, msg = self.queue.pop(0)
         return self.sim.encode(msg)
 
@@ -205,6 +218,8 @@ class Sim:
             return "TO"
         except Hang:
             return "HANG"
+        except Spin:
+            return "SPIN"
         except KeyError as ex:
             return "exc:" + self._payload(ex)
         return r
@@ -224,14 +239,15 @@ class Sim:
             out = "-"
         elif c == "V":
             self.conn.serve(0)
+            self.chan.idle_polls = 0
             out = "-"
         elif c == "C":
             res.add_callback(CB(int(tok[1:]), self))
             out = "-"
         elif c == "r":
-            out = tri(res.ready)
+            out = self._wait_like(lambda: tri(res.ready))
         elif c == "e":
-            out = tri(res.error)
+            out = self._wait_like(lambda: tri(res.error))
         elif c == "x":
             out = tri(res.expired)
         elif c == "v":
@@ -258,6 +274,7 @@ class Sim:
         else:
             raise ValueError("bad token %r" % tok)
         res = self.res
+        self.chan.idle_polls = 0
         if self.ra is None and res._is_ready and self.reply_times:
             self.ra = self.reply_times[-1]
         return "%s@%s" % (out, fmt_t(self.clock.now))
@@ -469,6 +486,19 @@ def run_scenario_simnet(kind, tau, pre, k, post, ops):
     out = []
     with net.installed():
         ca, cb_ = net.connect_pair(rpyc.VoidService(), Srv(), {}, {})
+        spin = {"t": None, "n": 0}
+
+        def watch(op, _stream, _arg):
+            # a caller polling again and again at one virtual instant would never return: report it instead
+            if op == "poll":
+                if net.clock.now == spin["t"]:
+                    spin["n"] += 1
+                    if spin["n"] > 500:
+                        spin["n"] = 0
+                        raise Spin()
+                else:
+                    spin["t"], spin["n"] = net.clock.now, 0
+        ca._channel.stream.fault = watch
         try:
             work = ca.root.work
             cbarg = client_cb if k is not None else None
@@ -485,6 +515,8 @@ def run_scenario_simnet(kind, tau, pre, k, post, ops):
                     return fn()
                 except AsyncResultTimeout:
                     return "TO"
+                except Spin:
+                    return "SPIN"
             if kind == "sync":
                 ca._config["sync_request_timeout"] = tau
                 out.append(waitlike(lambda: "val:%s" % work(pre, cbarg, post)) + "@" + rel())
@@ -502,9 +534,9 @@ def run_scenario_simnet(kind, tau, pre, k, post, ops):
                         res.add_callback(lambda r, cid=cid: cblog.append("%d@%s" % (cid, rel())))
                         o = "-"
                     elif op == "r":
-                        o = tri(res.ready)
+                        o = waitlike(lambda: tri(res.ready))
                     elif op == "e":
-                        o = tri(res.error)
+                        o = waitlike(lambda: tri(res.error))
                     elif op == "x":
                         o = tri(res.expired)
                     elif op == "v":
